@@ -106,13 +106,15 @@ def lat_equiv_pairs(rots):
     return pairs
 
 
-def classify(cfg, is_shift, world):
-    """Name of the input class of a failing event (part of the violation key)."""
+def classify(cfg, is_shift, world, mesh=None):
+    """Name of the input class of a failing event (part of the violation key); mesh = the mesh numbers
+    actually used (they differ from cfg["mesh"] for a length)."""
     if is_generic(cfg):
         return "generic-shift"
+    mesh = mesh if mesh is not None else cfg["mesh"]
     if is_shift is not None and len(is_shift) == 3:
         for i, j in lat_equiv_pairs(world.table[cfg["grp"]]):
-            if is_shift[i] != is_shift[j] and cfg["mesh"][i] == cfg["mesh"][j]:
+            if is_shift[i] != is_shift[j] and mesh[i] == mesh[j]:
                 return "half-shift-unequal-on-equivalent-axes"
     return "regular"
 
@@ -171,19 +173,22 @@ def model_configs(ctx, world, api_crystals):
                     cfgs.append(dict(level="grid", len=False, mesh=list(m), sn=list(sn), sd=sd, gamma=gamma,
                                      tr=tr, sym=sym, grp=c, _crystal=c))
     rng.shuffle(cfgs)
-    cfgs = cfgs[: (480 if quick else 9000)]
+    cfgs = cfgs[: (400 if quick else 3000)]
     # subgroups (the low-order ones are where R s = s mod 2 can fail)
     sub = []
     for c in crystals:
         ks = list(range(len(world.subs[c])))
         rng.shuffle(ks)
-        for k in ks[: (3 if quick else 12)]:
+        for k in ks[: (3 if quick else 6)]:
             for m in ([(2, 2, 2), (2, 2, 1)] if quick else [(2, 2, 2), (2, 2, 1), (3, 3, 3), (1, 2, 2), (4, 4, 2)]):
                 for (sn, sd) in HALF_SHIFTS[1:4] + [GENERIC[1]]:
                     for tr in (True, False):
                         sub.append(dict(level="grid", len=False, mesh=list(m), sn=list(sn), sd=sd,
                                         gamma=bool(rng.getrandbits(1)), tr=tr, sym=True,
                                         grp=group_name(c, k), _crystal=c))
+    if not quick:
+        rng.shuffle(sub)
+        sub = sub[:1500]
     cfgs += sub
     # Phonopy.init_mesh level, explicit meshes and lengths
     api = []
@@ -201,9 +206,8 @@ def model_configs(ctx, world, api_crystals):
                 for gamma, sym in itertools.product((True, False), repeat=2):
                     api.append(dict(level="api", len=True, mesh=base, sn=list(sn), sd=sd, gamma=gamma, tr=True,
                                     sym=sym, grp=c, _crystal=c, _length=length))
-    if quick:
-        rng.shuffle(api)
-        api = api[:110]
+    rng.shuffle(api)
+    api = api[: (90 if quick else 1200)]
     # every base triple for the length rule, exhaustively small (grid numbers do not matter there)
     return cfgs + api
 
@@ -245,6 +249,7 @@ def done_states(path):
     out = []
     for blk in re.split(r"^State \d+:[^\n]*$", text, flags=re.M)[1:]:
         if 'pc = "done"' in blk:
+            blk = re.sub(r"^/\\ group = .*?(?=^/\\ )", "", blk, flags=re.M | re.S)  # the group itself is not needed
             out.append(tla_values.parse_state_body(blk))
     return out
 
@@ -314,7 +319,7 @@ def replay_model(ctx, world, apiw, cfgs, states):
         ctx.count(("replay", key))
         for f in ("mesh", "isShift", "map", "ir", "weights"):
             if exp[f] != got[f]:
-                ctx.violation("%s:replay:%s" % (classify(cfg, ish, world), f),
+                ctx.violation("%s:replay:%s" % (classify(cfg, ish, world, mesh), f),
                               "C09 replay: real %s differs from the specification's for the same configuration" % f,
                               dict(cfg=strip(cfg), field=f, expected=exp[f], observed=got[f],
                                    rotations=world.table[cfg["grp"]]))
@@ -329,7 +334,7 @@ def replay_model(ctx, world, apiw, cfgs, states):
 def grid_events(ctx, world):
     rng = ctx.rng
     quick = ctx.quick
-    n_rand = 380 if quick else 4000
+    n_rand = 300 if quick else 2000
     maxm = 4 if quick else 6
     events = []
     cfgs = []
@@ -341,7 +346,7 @@ def grid_events(ctx, world):
     for c in [x for x in ("ocp", "mcp", "mcp2", "rhp", "sc", "tetab", "bctp") if x in names]:
         cands = [None] + list(range(len(world.subs[c])))
         rng.shuffle(cands)
-        for k in cands[: (4 if quick else 40)]:
+        for k in cands[: (4 if quick else 20)]:
             for m in ([(2, 2, 2), (2, 2, 1)] if quick else [(2, 2, 2), (2, 2, 1), (3, 3, 3), (1, 2, 2), (4, 4, 2), (3, 3, 1)]):
                 (sn, sd) = HALF_SHIFTS[rng.choice([1, 2, 3, 4, 5, 6])]
                 directed.append(dict(level="grid", len=False, mesh=list(m), sn=list(sn), sd=sd,
@@ -356,7 +361,7 @@ def grid_events(ctx, world):
                 m[1] = m[0]
             if rng.random() < 0.3:
                 m[2] = m[0]
-            if m[0] * m[1] * m[2] <= (64 if quick else 125):
+            if m[0] * m[1] * m[2] <= (64 if quick else 100):
                 break
         (sn, sd) = rng.choice(shifts_all)
         cfgs.append(dict(level="grid", len=False, mesh=m, sn=list(sn), sd=sd, gamma=bool(rng.getrandbits(1)),
@@ -365,7 +370,7 @@ def grid_events(ctx, world):
     # length2mesh with rotations that exchange axes of unequal reciprocal length (the alignment rule)
     lens = []
     nprng = np.random.default_rng(ctx.seed + 909)
-    for _ in range(60 if quick else 600):
+    for _ in range(60 if quick else 400):
         c = rng.choice(names)
         k = None if rng.random() < 0.5 else rng.randrange(len(world.subs[c]))
         L = np.diag(nprng.uniform(0.8, 2.4, size=3)) @ xtal.random_rotation(nprng) if rng.random() < 0.7 \
@@ -375,7 +380,7 @@ def grid_events(ctx, world):
         if np.any(np.abs(vals - np.floor(vals) - 0.5) < 1e-3):
             continue
         base = [int(x) for x in np.rint(vals)]
-        if max(base) ** 3 > (64 if quick else 125):
+        if base[0] * base[1] * base[2] > (64 if quick else 100) or max(base) > 5:
             continue
         (sn, sd) = rng.choice(HALF_SHIFTS + GENERIC[:1])
         lens.append(dict(level="grid", len=True, mesh=base, sn=list(sn), sd=sd, gamma=bool(rng.getrandbits(1)),
@@ -430,7 +435,7 @@ def report(ctx, world, events, viols, tag):
     drift = {}
     for name, eid in viols:
         e = byid.get(eid)
-        cls = classify(e["cfg"], e["isShift"], world) if e else "unknown"
+        cls = classify(e["cfg"], e["isShift"], world, e["mesh"]) if e else "unknown"
         detail = None
         if e:
             detail = dict(invariant=name, cfg=e["cfg"], crystal=e["crystal"], rotations=world.table[e["cfg"]["grp"]],
@@ -490,7 +495,7 @@ def api_events(ctx, world, apiw, events_start):
         # directed first: unequal half shift on possibly equivalent axes, and a generic shift
         combos = [((2, 2, 2), HALF_SHIFTS[4], True, False), ((2, 2, 1), HALF_SHIFTS[4], True, True),
                   ((2, 2, 2), GENERIC[0], False, True)] + combos
-        for (m, (sn, sd), gamma, tr) in combos[: (14 if quick else 80)]:
+        for (m, (sn, sd), gamma, tr) in combos[: (14 if quick else 50)]:
             base_cfg = dict(level="api", len=False, mesh=list(m), sn=list(sn), sd=sd, gamma=gamma, tr=tr,
                             grp=c, _crystal=c)
             if rng.random() < 0.15 and not is_generic(base_cfg):
@@ -521,7 +526,7 @@ def api_events(ctx, world, apiw, events_start):
             on, off = pair.get(True), pair.get(False)
             if not on or not off:
                 continue
-            cls = classify(on["cfg"], [int(x) for x in on["gp"]._is_shift], world)
+            cls = classify(on["cfg"], [int(x) for x in on["gp"]._is_shift], world, [int(x) for x in on["gp"].mesh_numbers])
             for q in ("thermal", "moments", "dos"):
                 a, b = on["vals"][q], off["vals"][q]
                 scale = max(np.abs(b).max(), 1e-30)
@@ -624,7 +629,7 @@ def selfcheck(ctx, world, gev):
 
     # pick a reduced, accepted-looking event and corrupt one map entry / one weight
     cand = [e for e in gev if len(e["res"]["ir"]) < len(e["res"]["map"]) and len(e["res"]["ir"]) >= 2
-            and not is_generic(e["cfg"]) and classify(e["cfg"], e["isShift"], world) == "regular"]
+            and not is_generic(e["cfg"]) and classify(e["cfg"], e["isShift"], world, e["mesh"]) == "regular"]
     if not cand:
         raise tlcmod.MachineryError("no reduced event to corrupt")
     e1 = copy.deepcopy(cand[0])
